@@ -152,6 +152,7 @@ def run(ctx):
     s_unique(ctx, fail, els, isos)
     s_periodic(ctx, fail, drv, els)
     s_isotopes(ctx, fail, E, els, isos)
+    s_isotope_attachment(ctx, fail, drv, E, els, isos)
 
     # ---- 6. equality / hashing ---------------------------------------------------------------------------------------
     s_eq_hash(ctx, fail, E, species)
@@ -503,6 +504,78 @@ def s_isotopes(ctx, fail, E, els, isos):
         if not (math.isfinite(i.atomic_weight) and 10 * abs(n - i.mass_number * d) <= d):
             fail('C19:isotope:%s:weight' % i.name, 'isotope %r: atomic weight %r is not within 0.1 u of mass number %d'
                  % (i.name, i.atomic_weight, i.mass_number), dict(isotope=i.name, weight=i.atomic_weight, a=i.mass_number))
+
+
+def s_isotope_attachment(ctx, fail, drv, E, els, isos):
+    """an isotope hangs on the RIGHT element: independent of `.element`'s self-consistency.  Reference = hand-written
+    Periodic.lean (rows and the special hydrogen names), served by the driver.
+      * the isotope's name / symbol is <element name><A> / <element symbol><A> (or protium/H, deuterium/D, tritium/T for Z = 1);
+      * its element's (Z, symbol, name) is the periodic-table row;
+      * lookup_isotope(<own element: name, symbol, Z, object>, number=A) returns it (covered by s_lookups) and
+        lookup_isotope(<any other exported element>, number=A) does not."""
+    lines = ['hisotopes'] + ['periodic %d' % z for z in range(0, 121)]
+    lines += ['named %d %d %d %d %d %d' % (i.element.atomic_number, code(i.element.name), code(i.element.symbol), i.mass_number,
+                                          code(i.name), code(i.symbol)) for i in isos]
+
+    def _done(outs):
+        special = set()
+        for tok in outs[0].split():
+            a, sy, nm = tok.split(':')
+            special.add((int(a), T.decode(sy), T.decode(nm)))
+        ref = {}
+        for z, o in enumerate(outs[1:122]):
+            if o != 'none':
+                sy, nm = o.split()
+                ref[z] = (T.decode(sy), T.decode(nm))
+        if special != {(1, 'H', 'protium'), (2, 'D', 'deuterium'), (3, 'T', 'tritium')} or len(ref) != 118:
+            raise RuntimeError('reference tables are damaged')
+        bad = []
+        for i, model in zip(isos, outs[122:]):
+            p = i.element
+            a = i.mass_number
+            ctx.case(key=('attached', i.name))
+            std = i.name.lower() == (p.name + str(a)).lower() and i.symbol.lower() == (p.symbol + str(a)).lower()
+            hyd = p.atomic_number == 1 and (a, i.symbol, i.name.lower()) in special
+            ctx.count('S:isotope-naming:' + ('standard' if std else 'hydrogen-special' if hyd else 'MISMATCH'))
+            ctx.traces += 1
+            if model != ('1' if (std or hyd) else '0'):
+                bad.append((i.name, p.name, 'model ' + model, 'python oracle %r' % (std or hyd)))
+            if not (std or hyd):
+                fail('C19:isotope:%s:not-named-after-its-element' % i.name,
+                     'isotope %r (symbol %r, A = %d) is attached to element %r (symbol %r, Z = %d): name/symbol are not <element><A>'
+                     % (i.name, i.symbol, a, p.name, p.symbol, p.atomic_number),
+                     dict(isotope=i.name, symbol=i.symbol, a=a, element=p.name, element_symbol=p.symbol, z=i.atomic_number))
+            r = ref.get(p.atomic_number)
+            if r is None or r[0] != p.symbol or p.name.lower() not in (r[1], ALT_NAMES.get(p.atomic_number)):
+                fail('C19:isotope:%s:element-not-a-periodic-row' % i.name,
+                     'isotope %r: its element (%r, %r, Z = %d) is not a row of the periodic table (%r)' % (i.name, p.name, p.symbol, p.atomic_number, r),
+                     dict(isotope=i.name, element=p.name, z=p.atomic_number, reference=r))
+        if bad:
+            ctx.disagreements += len(bad)
+            ctx.broke('correspondence', 'isotopeNamedAfter: model vs python oracle', bad[:10])
+    if drv is not None:
+        drv.add(lines, _done)
+    else:
+        try:
+            _done(lean.run_driver('C19', lines))
+        except Exception as e:  # noqa
+            ctx.broke('correspondence', 'reference tables unavailable (driver does not build)', str(e)[-500:])
+    # no other element leads to this isotope
+    n = 0
+    for i in isos:
+        for e in els:
+            if e is i.element:
+                continue
+            for v in (e, e.symbol, e.name, e.atomic_number):
+                st, res = call(E.lookup_isotope, v, i.mass_number)
+                n += 1
+                if st == 'ok' and res is i:
+                    fail('C19:lookup_isotope:foreign-element+number:%s' % i.name,
+                         'lookup_isotope(%r, number=%d) returned %r although its element is %r' % (v, i.mass_number, i, i.element),
+                         dict(call='lookup_isotope', arg=qspec(v), number=i.mass_number, got=i.name, element=i.element.name, foreign=e.name))
+        ctx.case(key=('foreign', i.name))
+    ctx.count('S:lookup_isotope:foreign-element+number', n)
+    ctx.evaluations += n
 
 
 # -------------------------------------------------------------------------------------------------------------------
